@@ -4,7 +4,7 @@ use crate::falsify::*;
 use crate::gen::*;
 use crate::rng::Rng;
 use crate::units::Out;
-use chrono::NaiveDate;
+use chrono::{Datelike, NaiveDate};
 use islamic_prayer_times::*;
 use serde_json::{json, Value};
 use std::collections::BTreeMap;
@@ -170,7 +170,8 @@ fn one(ctx: &mut Ctx, c: &Cli, dir: &std::path::Path, k: usize, reuse: Option<&C
             return;
         }
         for (d, day) in &lib {
-            let hij = std::panic::catch_unwind(|| HijriDate::from(*d).to_string()).unwrap_or_default();
+            // independent rendering of the Hijri header (own tabular calendar, own name tables)
+            let hij = crate::f_hijri::expected_display(d.num_days_from_ce() as i64);
             let header = format!("{} ({})", hij, d.format("%A, %B %d, %Y"));
             let pos = match out.find(&header) {
                 Some(p) => p,
@@ -182,8 +183,15 @@ fn one(ctx: &mut Ctx, c: &Cli, dir: &std::path::Path, k: usize, reuse: Option<&C
             let block: Vec<&str> = out[pos..].lines().skip(1).take(7).collect();
             for (i, p) in PRAYERS.iter().enumerate() {
                 let want = match day[p] {
-                    Ok(t) => format!("  {}: {}", p, t),
-                    Err(()) => format!("  {}: Invalid", p),
+                    Ok(t) => {
+                        // "%l:%M %p" written out by hand: 12-hour clock, hour space-padded to two columns
+                        use chrono::Timelike;
+                        let (h, m) = (t.time.hour(), t.time.minute());
+                        let h12 = if h % 12 == 0 { 12 } else { h % 12 };
+                        let clock = format!("{:>2}:{:02} {}", h12, m, if h < 12 { "AM" } else { "PM" });
+                        format!("  {:?}: {}{}", p, clock, if t.extreme { " (extreme)" } else { "" })
+                    }
+                    Err(()) => format!("  {:?}: Invalid", p),
                 };
                 if block.get(i).copied() != Some(want.as_str()) {
                     ctx.fail(c.json(), format!("line `{}`", block.get(i).copied().unwrap_or("<missing>")), format!("`{}`", want));
